@@ -39,10 +39,19 @@ static inline const char* vt_tag (double) { return "d"; }
 
 // a crash must truncate the trace, never corrupt it
 static FILE* vt_out = stdout;
+// An exception that escapes from the library through the recorder (a call that was not supposed to throw) must not
+// silently truncate the trace: flush what was recorded, say why on stderr, and exit with a code the driver reports as a
+// violation (the recorded call did not return).
 static inline void vt_terminate ()
 {
     fflush (vt_out);
-    _exit (0);
+    const char* what = "unknown";
+    try { std::exception_ptr p = std::current_exception (); if (p) std::rethrow_exception (p); }
+    catch (const std::exception& e) { what = e.what (); }
+    catch (...) {}
+    fprintf (stderr, "recorder terminated by an uncaught exception: %s\n", what);
+    fflush (stderr);
+    _exit (86);
 }
 static inline void vt_init () { std::set_terminate (vt_terminate); }
 
